@@ -8,7 +8,7 @@ PROPS = {"C11": "model_checking"}
 PROP_INVS = {
     "C11": ["C11_NextAsFresh", "C11_KafkaErrKeepsOpen", "C11_ErrorReported", "C11_FailedStaysFailed", "C11_NoSpuriousNoProgress",
             "C11_TransportErrorCloses", "C11_StallIsError", "C11_WrongIdIsError", "C17_NoPanicNoHang"],
-    "C06": ["C06_OwnResponse", "C06_UniqueIds"],
+    "C06": ["C06_OwnResponse", "C06_UniqueIds", "C06_SharedBuffersClean"],
     "C17": ["C17_CutIsError", "C17_NoPanicNoHang", "C11_FailedStaysFailed", "C06_OwnResponse", "C11_TransportErrorCloses"],
 }
 MC_INVS = {
@@ -214,10 +214,23 @@ def run_scripts(ctx, scripts, tag):
     sp = os.path.join(ctx.work, "cscripts-%s.ndjson" % tag)
     tp = os.path.join(ctx.work, "ctraces-%s.ndjson" % tag)
     write_ndjson(sp, scripts)
+    # the recycled-buffer scenarios are run by themselves, one at a time on one P with the collector off: what sync.Pool hands
+    # out is then a function of the scenario alone
+    pool = [s for s in scripts if s.get("kind") == "pool"]
+    rest = [s for s in scripts if s.get("kind") != "pool"]
+    write_ndjson(sp, rest)
     p = ctx.run_vh(["conn", "-scripts", sp, "-out", tp, "-par", "24"], timeout=2400)
     if p.returncode != 0:
         raise Inconclusive("vh conn failed: " + p.stderr[-2000:])
     traces = split_traces(read_ndjson(tp))
+    if pool:
+        sp2, tp2 = sp + ".pool", tp + ".pool"
+        write_ndjson(sp2, pool)
+        p2 = ctx.run_vh(["conn", "-scripts", sp2, "-out", tp2, "-par", "1"], timeout=600, env={"GOMAXPROCS": "1", "GOGC": "off"})
+        if p2.returncode != 0:
+            raise Inconclusive("vh conn (pool scenarios) failed: " + p2.stderr[-2000:])
+        traces += split_traces(read_ndjson(tp2))
+        scripts[:] = rest + pool
     if len(traces) != len(scripts):
         raise Inconclusive("driver produced %d traces for %d scripts" % (len(traces), len(scripts)))
     return traces
